@@ -262,6 +262,76 @@ def correspond(ctx):
                     break
                 lines.append(f'c06.berr2d {m} {n} {dr} {dc} {q(lamr)} {q(lamc)} {qs(w_seq[k])} {qs(Y.ravel())} {qs(np.asarray(v).ravel())}')
                 metas.append(('berr', {'host': '2d.' + host, 'kind': '2d', 'shape': [m, n], 'd': [dr, dc], 'lam': [lamr, lamc], 'step': k, 'kw': {}, 'x': [], 'y': []}))
+    # jbcd: two banded systems per iteration, (gamma_k P + I) s = y - v_old and (2 beta_k P + (1 + 2 alpha) I) v = y - s + 2 alpha Op, with
+    # gamma_k = gamma * gamma_mult^k, beta_k = beta * beta_mult^k (updated in floating point as the code does).  Captured band arrays against
+    # the Lean model `asmJbcd`, right-hand sides against the formulas, every output certified against the matrix the model DENOTES.
+    # NOTE: the documentation states 2*gamma for the signal system; the code uses gamma (theorem jbcd_signal_ne_documented).
+    from scipy.ndimage import grey_opening
+    from pybaselines.morphological import _avg_opening
+    for d in (1, 2, 3):
+        for n in sorted(set([d + 2, 2 * d + 2, 2 * d + 3, 12, 40])):
+            for solver in (1, 2, 3, 4):
+                if not ctx.thorough and rng.random() < 0.5:
+                    continue
+                x, y = data_1d(rng, n)
+                hw = int(rng.integers(1, 4))
+                dyadic = rng.random() < 0.5
+                if dyadic:
+                    alpha_, beta_, gamma_ = float(2.0 ** int(rng.integers(-4, 3))), float(2.0 ** int(rng.integers(-2, 8))), float(2.0 ** int(rng.integers(-3, 5)))
+                    bm, gm = float(rng.choice([1.0, 2.0, 1.5])), float(rng.choice([1.0, 0.5, 0.75]))
+                else:
+                    alpha_, beta_, gamma_ = float(rng.choice([0.1, 0.03, 1.7])), float(10.0 ** rng.uniform(-1, 4)), float(10.0 ** rng.uniform(-2, 2))
+                    bm, gm = 1.1, 0.909
+                robust = bool(rng.random() < 0.7)
+                iters = int(rng.integers(0, 4))
+                fit = Baseline(x)
+                fit.banded_solver = solver
+                with Capture() as cap:
+                    try:
+                        with np.errstate(all='ignore'):
+                            b, p = fit.jbcd(y, half_window=hw, alpha=alpha_, beta=beta_, gamma=gamma_, beta_mult=bm, gamma_mult=gm, diff_order=d,
+                                            max_iter=iters, tol=0.0, tol_2=0.0, robust_opening=robust)
+                    except Exception as ex:
+                        ctx.count('jbcd-raised:' + type(ex).__name__)
+                        continue
+                ctx.case(('jbcd', n, d, solver, hw, alpha_, beta_, gamma_, bm, gm, iters, robust), nontrivial=n > d + 1,
+                         sample={'host': 'jbcd', 'N': n, 'diff_order': d, 'banded_solver': solver, 'alpha': alpha_, 'beta': beta_, 'gamma': gamma_,
+                                 'solves_checked': len(cap.solves)} if d == 2 and n == 12 else None)
+                ctx.count('host:jbcd')
+                ctx.count('jbcd-layout:' + ('lower' if cap.solves and cap.solves[0]['lower'] else 'reversed' if cap.solves and cap.solves[0]['reversed'] else 'full'))
+                opening = grey_opening(y, 2 * hw + 1)
+                if robust:
+                    opening = np.minimum(opening, _avg_opening(y, hw, opening))
+                partial = (2 * alpha_) * opening
+                g, bt = gamma_, beta_
+                v_old = opening
+                meta0 = {'host': 'jbcd', 'kind': 'jbcd', 'n': n, 'd': d, 'solver': solver, 'x': x.tolist(), 'y': y.tolist(),
+                         'kw': {'half_window': hw, 'alpha': alpha_, 'beta': beta_, 'gamma': gamma_, 'beta_mult': bm, 'gamma_mult': gm, 'max_iter': iters,
+                                'robust_opening': robust}}
+                if len(cap.solves) != 2 * (iters + 1):
+                    dis.append(Disagreement('c06.model', 'model:jbcd:solves', f'jbcd (N={n}, max_iter={iters}, tol=0): {len(cap.solves)} banded solves instead of '
+                                            f'{2 * (iters + 1)}', {k: v for k, v in meta0.items() if k not in ('x', 'y')}, False))
+                    continue
+                for k in range(iters + 1):
+                    s1, s2 = cap.solves[2 * k], cap.solves[2 * k + 1]
+                    if not (np.all(np.isfinite(s1['out'])) and np.all(np.isfinite(s2['out']))):
+                        break
+                    for which, sv, c_, diag_, rhs_want in (('signal', s1, g, 1.0, y - v_old),
+                                                             ('baseline', s2, 2 * bt, 1 + 2 * alpha_, y - s1['out'] + partial)):
+                        m = dict(meta0, step=f'{which} system, iteration {k}', lam=c_, which=which)
+                        lines.append(f'c06.asmjbcd {n} {d} {q(c_)} {q(diag_)} {int(sv["lower"])} {int(sv["reversed"])}')
+                        metas.append(('asmjbcd', m, sv['lhs'], dyadic))
+                        if not np.array_equal(sv['rhs'], rhs_want):
+                            dis.append(Disagreement('c06.model', f'model:jbcd:rhs:{which}', f'jbcd (N={n}, d={d}, {m["step"]}): the right-hand side handed to the solver '
+                                                    f'is not the documented one (max diff {float(np.max(np.abs(sv["rhs"] - rhs_want))):.3g})',
+                                                    {kk: v for kk, v in m.items() if kk not in ('x', 'y')}, False))
+                        # exact certificate against diag*I + c*D'D with the right-hand side actually used
+                        wv = [Fraction(float(diag_))] * n
+                        lines.append(berr_line('std', n, d, c_, 0.0, wv, [], [Fraction(float(t)) / wv[0] for t in sv['rhs']], sv['out']))
+                        metas.append(('berr', m))
+                    v_old = s2['out']
+                    g *= gm
+                    bt *= bm
     # 2-D assembled matrix: the sparse `lhs` handed to PenalizedSystem2D.direct_solve against the Lean model `asm2d`
     # (kron(lam_r P_r, I) + kron(I, lam_c P_c) with main_diagonal + w); dyadic lam and weights, so the first solve is exact
     for host in ('asls', 'arpls', 'airpls'):
@@ -368,6 +438,16 @@ def correspond(ctx):
                 dis.append(Disagreement('c06.berr', f'{meta["host"]}:system', f'{meta["host"]} (N={meta.get("n", meta.get("shape"))}, d={meta["d"]}, lam={meta["lam"]}, '
                                         f'solver={meta.get("solver")}, step {meta["step"]}): the baseline does not solve the documented system for the weights in '
                                         f'force (exact normwise backward error {be:.3g})', meta, True))
+        elif mt[0] == 'asmjbcd':
+            _, meta, lhs, exact = mt
+            pred = np.array([[float(v) for v in parse_qs(row)] for row in r.split(';')])
+            # one rounding in c * integer, one in the addition on the main row (no cancellation: c >= 0, diag > 0): 4 eps; dyadic cases exactly
+            ok = pred.shape == lhs.shape and (np.array_equal(lhs, pred) if exact else np.allclose(lhs, pred, rtol=4 * EPS, atol=0))
+            if not ok:
+                dis.append(Disagreement('c06.model', f'model:asmjbcd:{meta["which"]}', f'jbcd (N={meta["n"]}, d={meta["d"]}, solver={meta["solver"]}, {meta["step"]}): the band '
+                                        f'array handed to the solver differs from the Lean assembly model' +
+                                        (f' (shape {lhs.shape} vs {pred.shape})' if pred.shape != lhs.shape else f' (max abs diff {float(np.max(np.abs(lhs - pred))):.3g})'),
+                                        {k: v for k, v in meta.items() if k not in ('x', 'y')}, False))
         elif mt[0] == 'asm2d':
             _, meta, lhs, exact = mt
             pred = np.array([[float(v) for v in parse_qs(row)] for row in r.split(';')])
